@@ -105,11 +105,13 @@ struct BulkWorld : World
   Plan generate(Rng& r, bool thorough) override
   {
     Plan p;
-    int logsz = 12;
     int registry = r.chance(1, 2);
     int mmu = r.chance(1, 6);
     int deny_in_place = r.chance(1, 2);
-    p.cfg = { logsz, registry, mmu, deny_in_place };
+    // regions of 256 B / 1 KiB sit inside one page, application bytes on the same page before and behind them
+    int logsz = mmu || r.chance(1, 2) ? 12 : r.chance(1, 2) ? 10 : 8;
+    int slot = (int)r.below(16);
+    p.cfg = { logsz, registry, mmu, deny_in_place, slot };
     int64_t S = 1LL << logsz;
     int n = (int)r.range(2, thorough ? 24 : 12);
     std::vector<unsigned> w = { 8, 8, 8, 6, 8, 5, 6, 8, 6, 7, (unsigned)(mmu ? 10 : 0) };
@@ -133,7 +135,7 @@ struct BulkWorld : World
       unsigned sc2 = (unsigned)r.below(8);
       o.a[4] = sc2 == 0 ? S - (int64_t)r.range(1, 16) : sc2 == 1 ? -(int64_t)r.range(1, 16) /* app memory just before the region */
                                                               : (int64_t)r.below((uint64_t)S);
-      o.a[5] = (int64_t)r.below(12);
+      o.a[5] = (int64_t)r.below(16);
       p.ops.push_back(o);
     }
     return p;
@@ -629,8 +631,10 @@ struct BulkWorld : World
     if (num > APPMAX)
       num = (op.a[2] & 1) ? APPMAX : (uint64_t)op.a[2]; // keep some huge values
     int fault = (int)((uint64_t)op.a[5] % 4); // 0 none, 1 grant refused, 2 refused + allocator null, 3 refused + straddling block
-    if (fault >= 1)
+    if (fault >= 1) {
       g_fault.grant_refuse = 1;
+      g_fault.refuse_echoes_pointer = (((uint64_t)op.a[5] >> 2) & 1) != 0; // refused, and the caller's pointer comes back with success=false
+    }
     if (fault == 2)
       g_fault.malloc_fail = 1;
     if (fault == 3)
@@ -702,8 +706,10 @@ struct BulkWorld : World
     unsigned __int128 bytes = (unsigned __int128)num * sizeof(T);
     bool ok = !null && num >= 1 && in_region(0, a, bytes);
     int mode = (int)((uint64_t)op.a[5] % 4); // 0 backend may hand the buffer over in place, 1/3 refused -> copy, 2 refused + host malloc fails
-    if (mode != 0)
+    if (mode != 0) {
       g_fault.grant_refuse = 1;
+      g_fault.refuse_echoes_pointer = (((uint64_t)op.a[5] >> 2) & 1) != 0;
+    }
     if (mode == 2)
       g_host_malloc_fail = 1;
     Snap before = snap();
@@ -838,9 +844,15 @@ struct BulkWorld : World
     C = &c;
     run_begin(&c);
     Sbx::cfg = Sbx::Config();
-    Sbx::cfg.size = 4096;
     registry = p.cfg.size() > 1 && p.cfg[1];
     mmu_on = p.cfg.size() > 2 && p.cfg[2];
+    int logsz = p.cfg.empty() ? 12 : (int)p.cfg[0];
+    if (mmu_on || logsz > 12 || logsz < 8)
+      logsz = 12;
+    Sbx::cfg.size = (size_t)1 << logsz;
+    Sbx::cfg.subpage_slot = p.cfg.size() > 4 ? (int)(p.cfg[4] & 15) : 0;
+    if (logsz < 12)
+      c.probe("region_smaller_than_a_page");
     Sbx::cfg.registry = registry;
     Sbx::cfg.mmu = mmu_on;
     Sbx::cfg.deny_in_place = p.cfg.size() > 3 && p.cfg[3];
@@ -852,7 +864,7 @@ struct BulkWorld : World
       sb[i]->create_sandbox(0);
       impl[i] = sb[i]->get_sandbox_impl();
     }
-    c.ev("cfg registry=%d mmu=%d", (int)registry, (int)mmu_on);
+    c.ev("cfg size=2^%d slot=%d registry=%d mmu=%d", logsz, Sbx::cfg.subpage_slot, (int)registry, (int)mmu_on);
     if (mmu_on)
       c.probe("read_set_observed_with_trap_mmu");
     for (size_t i = 0; i < p.ops.size() && !c.stop; i++) {
